@@ -440,6 +440,8 @@ CALL_CONTRACTS = {
     "SystemTimeError::duration": "returns the distance stored in the error; never panics",
     "Duration::as_secs": "whole seconds of the distance, 0 <= secs < 2^64",
     "Duration::subsec_nanos": "fractional part in nanoseconds, 0 <= nanos < 10^9",
+    "Duration::subsec_micros": "fractional part in whole microseconds = floor(subsec_nanos / 1000)",
+    "Duration::subsec_millis": "fractional part in whole milliseconds = floor(subsec_nanos / 1000000)",
     "<i64 as From<i32>>::from": "value-preserving widening",
     "<i32 as From<i8>>::from": "value-preserving widening",
 }
@@ -894,6 +896,14 @@ class Executor:
                     and vals[0].target.kind == "Duration"):
                 raise Unsupported(callee + " argument")
             return vals[0].target.fields["secs" if callee.endswith("as_secs") else "nanos"]
+        if callee in ("Duration::subsec_micros", "Duration::subsec_millis"):
+            if not (isinstance(vals[0], RefV) and isinstance(vals[0].target, OpaqueV)
+                    and vals[0].target.kind == "Duration"):
+                raise Unsupported(callee + " argument")
+            n = vals[0].target.fields["nanos"]
+            k = 1000 if callee.endswith("micros") else 1000000
+            # the operand is non-negative, so SMT-LIB `div` is the floor Rust computes
+            return IntV("u32", "(div %s %d)" % (n.term, k), None if n.conc is None else n.conc // k)
         m = re.fullmatch(r"<(\w+) as From<(\w+)>>::from", callee)
         if m:
             v = vals[0]
